@@ -28,6 +28,9 @@ def sh(cmd, cwd=None, timeout=None, env=None, stdin=None):
                        timeout=timeout, env=e, stdin=stdin)
     return p.returncode, p.stdout.decode('utf-8', 'replace')
 
+GRAMMAR_SCOPE = {'C03': 'pp', 'C04': 'pp', 'C05': 'pp', 'C06': 'pp', 'C09': 'pp', 'C10': 'pp', 'C11': 'pp', 'C18': 'pp',
+                 'C16': 'none', 'C19': 'none', 'C20': 'none'}
+
 class Lock:
     def __init__(self, name='build'):
         os.makedirs(WORK, exist_ok=True)
@@ -68,7 +71,12 @@ class Ctx:
         self.summary = json.load(open(os.path.join(WORK, 'summary.json')))
         base = json.load(open(os.path.join(VERIF, 'svx/opaque_baseline.json')))
         grown = sorted(set(self.summary['opaque']) - set(base['opaque']))
-        self.oblige('svx:no-new-opaque-productions', not grown,
+        # a production svx cannot translate matters only to the checks whose theorems range over it: the whole grammar ('all'),
+        # the part reachable from preprocessor_text ('pp'), or nothing of the grammar ('none')
+        scope = GRAMMAR_SCOPE.get(self.prop, 'all')
+        if scope == 'pp': grown = [n for n in grown if n in set(self.summary.get('pp_reachable', []))]
+        elif scope == 'none': grown = []
+        self.oblige('svx:no-new-opaque-productions(scope=%s)' % scope, not grown,
                     'productions no longer translatable (so no longer covered by the theorems): ' + ', '.join('%s (%s)' % (n, self.summary['opaque'][n]) for n in grown))
         self.oblige('svx:keyword-tables-extracted', not self.summary['kw_problems'], '; '.join(self.summary['kw_problems']))
         self.cov['translated_productions'] = self.summary['productions'] - len(self.summary['opaque'])
